@@ -158,6 +158,7 @@ def build_hx(variant="", extra_flags=()):
     ensure_ref()
     with Lock("go"):
         gen_archpkgs()
+        sh([sys.executable, os.path.join(ROOT, "tools", "gen_sigzoo.py")], timeout=120)
         gosum = os.path.join(REPO, "go.sum")
         if os.path.exists(gosum):
             shutil.copy(gosum, os.path.join(HARNESS, "go.sum"))
@@ -248,6 +249,9 @@ def load_known():
         return json.load(f).get("findings", [])
 
 
+_GO2V_DONE = False
+
+
 class Check:
     """Collects what one check run found and renders verdict + evidence."""
 
@@ -293,7 +297,14 @@ class Check:
 
     # -- proof obligations
     def prove(self, targets, label=None):
-        """Compile proof targets; count obligations from the Props file(s)."""
+        """Compile proof targets; count obligations from the Props file(s). Gen/*.v is regenerated from /repo first."""
+        global _GO2V_DONE
+        if not _GO2V_DONE:
+            try:
+                self.notes["go2v"] = {m["module"]: (sorted(m["failed"]) or "ok") for m in run_go2v()}
+            except Infra as ex:
+                self.obligation_broken("go2v", str(ex))
+            _GO2V_DONE = True
         ok, failed, log = coq_make(targets)
         nthm = 0
         for t in targets:
